@@ -215,7 +215,10 @@ impl ParsedFormula {
     }
 
     pub fn to_free_index(&self, ns: &NamedSymbol) -> usize {
-        self.raw2free[ns.id].unwrap_or_else(|| panic!("{} is not a free variable", ns))
+        // free_vars is sorted by id; ids need not be contiguous (custom orderings), so search instead of indexing by id
+        self.free_vars
+            .binary_search_by(|v| v.id.cmp(&ns.id))
+            .unwrap_or_else(|_| panic!("{} is not a free variable", ns))
     }
 
     pub fn extract_vars(tokens: &[SymbolicBDDToken]) -> Vec<NamedSymbol> {
